@@ -93,6 +93,9 @@ where
             expected: hrp.to_string(),
             actual: parsed.hrp().as_str().to_owned(),
         })
+    } else if parsed.validate_segwit_padding().is_err() {
+        // The 8-to-5 bit regrouping must be canonical: at most 4 bits of padding, all zero.
+        Err(Bech32DecodeError::ReadError)
     } else {
         read(parsed.byte_iter().collect::<Vec<_>>()).ok_or(Bech32DecodeError::ReadError)
     }
@@ -286,6 +289,9 @@ pub fn decode_extfvk_with_network(
             actual: other.to_string(),
         }),
     }?;
+    parsed
+        .validate_segwit_padding()
+        .map_err(|_| Bech32DecodeError::ReadError)?;
     let fvk = ExtendedFullViewingKey::read(&parsed.byte_iter().collect::<Vec<_>>()[..])
         .map_err(|_| Bech32DecodeError::ReadError)?;
 
